@@ -375,10 +375,14 @@ pub fn minimise<P: Prop>(p: &P, case: P::Case, v: Violation) -> (P::Case, Violat
     let mut budget: u64 = 3000;
     let mut used = 0;
     let mut scratch = Stats::default();
+    // bounded in executions and in wall-clock time (a report with a less than minimal case is
+    // better than a late one)
+    let started = Instant::now();
+    let limit = std::time::Duration::from_secs(90);
     'outer: loop {
         let cands = p.shrink(&best);
         for c in cands {
-            if budget == 0 {
+            if budget == 0 || started.elapsed() > limit {
                 break 'outer;
             }
             budget -= 1;
